@@ -218,7 +218,8 @@ JLead(ev, reg, opts) ==
                          THEN "ok" ELSE "value"
        [] ev.fn \in {"amax", "amin"} ->
             IF r.kind # "poly" THEN "type"
-            ELSE IF r.shape # <<>> THEN "shape"
+            ELSE IF r.shape # (IF "keepdims" \in DOMAIN ev /\ ev.keepdims
+                               THEN [i \in 1..Len(a.shape) |-> 1] ELSE <<>>) THEN "shape"
             ELSE LET f == Den(r).el[1]
                  IN IF \E i \in 1..n : /\ a.el[i] = f
                                        /\ \A j \in 1..n :
